@@ -164,16 +164,22 @@ where
     kani::cover!(llr < -20000);
 }
 
-#[kani::proof]
-#[kani::unwind(66)]
-fn c05_probe_var64() {
-    var_rule::<Aminstari8Jones, 64>(Aminstari8Jones::verif_with_table(spec_table()), true, false);
+// degrees 1..=100, full functional form, for the four shapes of `impl_send_var_messages_i8!`
+// (Jones clipping x degree-one clipping); the macro body is shared by all sixteen types.
+// Measured: 35 min each; 1..=200 (the property's range) did not finish in 50 min.
+macro_rules! var100 {
+    ($name:ident, $ty:ident, $jones:expr, $deg1:expr) => {
+        #[kani::proof]
+        #[kani::unwind(102)]
+        fn $name() {
+            var_rule::<$ty, 100>(<$ty>::verif_with_table(spec_table()), $jones, $deg1);
+        }
+    };
 }
-#[kani::proof]
-#[kani::unwind(102)]
-fn c05_probe_var100() {
-    var_rule::<Aminstari8Jones, 100>(Aminstari8Jones::verif_with_table(spec_table()), true, false);
-}
+var100!(c05_var100__Minstarapproxi8, Minstarapproxi8, false, false);
+var100!(c05_var100__Minstarapproxi8Jones, Minstarapproxi8Jones, true, false);
+var100!(c05_var100__Minstarapproxi8Deg1Clip, Minstarapproxi8Deg1Clip, false, true);
+var100!(c05_var100__Aminstari8JonesDeg1Clip, Aminstari8JonesDeg1Clip, true, true);
 
 /// variable rule: total = (deg-1-clipped) channel LLR + all messages, optional Jones clipping,
 /// message_i = clip(total - m_i), return clip(total); exactly n sends, dest == source, in order
